@@ -322,7 +322,7 @@ def run(rep, tier, parts=("defvjp", "defvjp_argnum", "defjvp", "nodes")):
 
     for q in ("defvjp", "defvjp_argnum", "defvjp_argnums", "translate_vjp", "defjvp", "defjvp_argnum", "def_linear",
               "translate_jvp", "VJPNode", "JVPNode", "sum_outgrads", "add_outgrads"):
-        rep.function(f"autograd.core.{q}", getattr(C, q))
+        rep.function(f"autograd.core.{q}", getattr(C, q, None))
     rep.bound("autograd.core rule registration: 1..5 rules (4 in quick), None/'same'/callable entries, argnums= forms, every non-empty "
               "subset of requested positions incl. one unregistered position - enumerated exhaustively; all values opaque")
 
